@@ -264,6 +264,39 @@ package check
 //@   loop range:errList step [every-syntax-error-is-recorded] hits("InsertError#0") == prev(hits("InsertError#0")) + 1
 //@ end
 
+// C05: the cursor of a definition / hover / reference request reaches the scope lookup as a zero-width POINT on its
+// one-based line (token ranges end one column behind the last character: a point just behind an identifier is still
+// inside it, a one-column-wide range is not), and the lookup starts from the innermost scope and function at that point
+//@ func (*AllProject).getVarCommonFuncParam
+//@   props C05
+//@   requires varStruct != nil
+//@   at call FindASTNode#0 before assert[innermost-scope-is-looked-up-at-the-cursor] arg1 == varStruct.PosLine && arg2 == varStruct.PosCh
+//@   ensures[cursor-is-handed-on-as-a-point-on-its-one-based-line] comParam != nil ==> comParam.loc.StartLine == varStruct.PosLine + 1 && comParam.loc.EndLine == varStruct.PosLine + 1
+//@        && comParam.loc.StartColumn == varStruct.PosCh && comParam.loc.EndColumn == varStruct.PosCh
+//@   ensures[lookup-has-a-scope-and-a-function] comParam != nil ==> comParam.scope != nil && comParam.fi != nil && comParam.fileResult != nil
+//@ end
+
+// C13: the comment is shown verbatim apart from its marker: of every line only leading blanks are stripped as a SET of
+// characters; the doc marker left over from "---" / "---*" is removed as a prefix, once ("-*" then "-"), so text that
+// itself starts with "*" or with further dashes keeps them
+//@ func GetStrComment
+//@   props C13
+//@   at call strings.TrimLeft#* before assert[only-blanks-are-stripped-as-a-set] streq(arg1, " ")
+//@   at call strings.TrimPrefix#0 before assert[marker-is-removed-as-a-prefix-once] streq(arg1, "-*")
+//@   at call strings.TrimPrefix#1 before assert[marker-is-removed-as-a-prefix-once] streq(arg1, "-")
+//@   ensures[at-most-two-marker-prefixes-are-removed-per-line] hits("strings.TrimPrefix#0") == hits("strings.TrimLeft#0") && hits("strings.TrimPrefix#1") == hits("strings.TrimLeft#0")
+//@   loop range:splitStrArr exits-early-only-if [every-line-of-the-comment-is-kept] false
+//@   loop range:splitStrArr invariant hits("strings.TrimPrefix#0") == hits("strings.TrimLeft#0") && hits("strings.TrimPrefix#1") == hits("strings.TrimLeft#0")
+//@ end
+
+// C02: a text handed in (the client's buffer - also an EMPTY one, which is not nil) is the text analysed; the file on disk
+// is read only when no text was given
+//@ func (*AllProject).analysisFirstLuaFile
+//@   props C02
+//@   at call ioutil.ReadFile#0 before assert[a-given-text-is-never-replaced-by-the-file-on-disk] content == nil
+//@   at call CreateParser#0 before assert[a-given-text-is-the-text-analysed] content != nil ==> arg0 == content
+//@ end
+
 // the result of a worker replaces the stored first-pass result exactly when something changed; the last good result of a
 // file that now has syntax errors is kept in the LRU cache (once), for the requests that need an AST
 //@ func (*AllProject).recvWorkChann
